@@ -223,6 +223,13 @@ class Interp:
                 return self.project(v[1], rest[2:], ty)
             if v[0] == "checked" and rest[:2] == ("as:Some", "0") and len(rest) == 2:
                 return self.arith(v[1], v[2], v[3])
+            if v[0] == "nonnull_opt" and rest[:2] == ("as:Some", "0"):
+                # payload of `match NonNull::new(p) { Some(m) => m, .. }`: the pointer itself (the null test is the SWITCH on the discriminant)
+                if len(rest) == 2:
+                    return v[1]
+                return self.project(v[1], rest[2:], ty)
+            if v[0] == "layout_res" and rest[:2] == ("as:Ok", "0") and len(rest) == 2:
+                return ("layout", v[1], v[2], "checked")
             if v[0] == "pair" and len(rest) == 1:
                 if rest[0] in ("0", "1"):
                     return v[1 + int(rest[0])]
@@ -692,7 +699,17 @@ class Interp:
                     if isinstance(vals[1], Poly):
                         st.env[dpath] = ("slice", st.env[dpath], vals[1], ty_str(rv["to"]) if rv.get("to") else "?")
             elif ak == "closure":
-                st.env[dpath] = ("closure", rv["closure"])
+                if not vals:
+                    st.env[dpath] = ("closure", rv["closure"])
+                else:
+                    # captured variables are the fields "0", "1", ... of the closure value
+                    st.env[(dpath[0], dpath[1] + ("$closure",))] = ("closure", rv["closure"])
+                    for i, v in enumerate(vals):
+                        p = (dpath[0], dpath[1] + (str(i),))
+                        if isinstance(v, Tree):
+                            self.copy_tree(st, v.path, p)
+                        else:
+                            st.env[p] = v
             else:
                 st.env[dpath] = ("agg?", ak)
 
@@ -749,6 +766,8 @@ class Interp:
                         nf = bool_facts(d, True)
                 if ("false",) in nf:
                     continue
+                if st.facts and any(contradicts(st.facts, f) for f in nf):
+                    continue      # infeasible under the facts that hold on every path to this switch
                 s2.facts = s2.facts | frozenset(nf)
                 res.append((tg, s2))
             return res
@@ -780,7 +799,17 @@ class Interp:
                 rpath = (("L", inst.loff + 0), ())
                 rty = self.local_ty(inst, 0)
                 dpath, dty = self.eval_place(st, inst.parent, ct["dest"])
-                if is_scalar_ty(rty):
+                if cnode.closure_call:
+                    # then / map: the closure's result becomes Some(result)
+                    self.kill_under(st, dpath)
+                    self.explode_parents(st, dpath)
+                    leaf = self.load(st, rpath, rty) if is_scalar_ty(rty) else st.env.get(rpath)
+                    if leaf is not None:
+                        st.env[dpath] = ("some", leaf)
+                    else:
+                        self.copy_tree(st, rpath, (dpath[0], dpath[1] + ("as:Some", "0")))
+                        st.env[(dpath[0], dpath[1] + ("$discr",))] = Poly.const(1)
+                elif is_scalar_ty(rty):
                     self.store(st, dpath, self.load(st, rpath, rty))
                 else:
                     leaf = st.env.get(rpath)
@@ -839,6 +868,8 @@ class Interp:
         rec = {"callee": callee, "args": args, "inst": inst, "node": node, "facts": st.facts, "line": line,
                "inlined": node.callee_inst is not None}
         self.calls[gid] = rec
+        if node.callee_inst is not None and node.closure_call:
+            return self.closure_call(gid, node, inst, st, t, nidx, line, args, normal, unwind)
         if node.callee_inst is not None:
             ci = node.callee_inst
             cfn = ci.fn
@@ -864,6 +895,58 @@ class Interp:
         res = [(s, st) for s in normal]
         if ust is not None:
             res += [(s, ust) for s in unwind]
+        return res
+
+    def closure_call(self, gid, node, inst, st, t, nidx, line, args, normal, unwind):
+        """`cond.then(closure)` / `opt.map(closure)`: the closure body is expanded; the state splits on the condition / discriminant"""
+        ci = node.callee_inst
+        kind = node.closure_call
+        entry = ci.bmap[0]
+        targets = [s for s in normal if s != entry]
+        dpath, dty = self.eval_place(st, inst, t["dest"])
+        res = []
+        sel = args[0]
+        if kind == "then":
+            yes_f, no_f = bool_facts(sel, True), bool_facts(sel, False)
+            payload = None
+        else:
+            if isinstance(sel, Tree):
+                d = st.env.get((sel.path[0], sel.path[1] + ("$discr",)))
+                d = d if isinstance(d, Poly) else Poly.atom(("discr", ("tree", sel.path)))
+                payload = Tree((sel.path[0], sel.path[1] + ("as:Some", "0")), None)
+            elif isinstance(sel, tuple) and sel and sel[0] == "some":
+                d, payload = Poly.const(1), sel[1]
+            elif isinstance(sel, tuple) and sel and sel[0] == "none":
+                d, payload = Poly.const(0), None
+            else:
+                d = Poly.atom(("discr", sel if not isinstance(sel, Poly) else ("poly", sel)))
+                payload = self.project(sel, ("as:Some", "0"), None)
+            yes_f, no_f = self.switch_facts(d, 1, True), self.switch_facts(d, 0, True)
+
+        def feasible(nf):
+            return ("false",) not in nf and not (st.facts and any(contradicts(st.facts, f) for f in nf))
+        if feasible(no_f):
+            s0 = st.copy()
+            s0.facts = s0.facts | frozenset(no_f)
+            self.store(s0, dpath, ("none",))
+            res += [(s, s0) for s in targets]
+        if feasible(yes_f):
+            s1 = st
+            s1.facts = s1.facts | frozenset(yes_f)
+            self.eff(node, nidx, "ENTER", callee=ci.path(), args=args[1:], line=line, facts=s1.facts, cinst=ci, closure=kind)
+            binds = [args[1]] + ([payload] if kind == "map" else [])
+            for i, a in enumerate(binds):
+                cell = (("L", ci.loff + i + 1), ())
+                lty = self.local_ty(ci, i + 1)
+                if i == 0 and lty.get("k") == "ref" and "move" in t["args"][1] or i == 0 and lty.get("k") == "ref" and "copy" in t["args"][1]:
+                    # Fn / FnMut closure called once: the body takes the environment by reference
+                    ep, _ = self.eval_place(s1, inst, t["args"][1].get("move") or t["args"][1].get("copy"))
+                    self.store(s1, cell, ("ref", ep))
+                elif isinstance(a, Tree):
+                    self.copy_tree(s1, a.path, cell)
+                else:
+                    self.store(s1, cell, a)
+            res.append((entry, s1))
         return res
 
     # ------------------------------------------------------------------ CFG restricted to the edges taken under this arm assignment
@@ -946,6 +1029,12 @@ class Interp:
                     out.append(e)
         return out
 
+    def effects_at(self, gid):
+        out = []
+        for key in sorted(k for k in self.effects if k[0] == gid):
+            out += self.effects[key]
+        return out
+
     def facts_at(self, gid):
         s = self.in_state.get(gid)
         return s.facts if s else frozenset()
@@ -1002,6 +1091,26 @@ def implies(facts, fact):
     if fact[0] == "ne0":
         # p != 0 follows from p - 1 >= 0 or -p - 1 >= 0
         return implies_ge0(facts, fact[1] - Poly.const(1)) or implies_ge0(facts, -fact[1] - Poly.const(1))
+    return False
+
+
+def contradicts(facts, f):
+    """the must-facts exclude f"""
+    k = f[0]
+    if k == "eq0":
+        return implies(facts, ("ne0", f[1]))
+    if k == "ne0":
+        return implies(facts, ("eq0", f[1]))
+    if k == "ge0":
+        return implies_ge0(facts, -f[1] - Poly.const(1))
+    if k == "teq":
+        return ("tne", f[1], f[2]) in facts
+    if k == "tne":
+        return ("teq", f[1], f[2]) in facts
+    if k == "true":
+        return ("isfalse", f[1]) in facts
+    if k == "isfalse":
+        return ("true", f[1]) in facts
     return False
 
 
